@@ -117,6 +117,11 @@ def cases(tier, seed):
     reqs.append(mie_ref.req_homog(1.2, 5.0))
     out.append({"id": "mie-far:m=1.2:x=5.0:kr=1e5", "kind": "far",
                 "m": [1.2, 0.0], "x": 5.0, "kr": 1e5})
+    # ... and distances on either side of the points where that routine
+    # changes its method (kr = 1e4) and used to give up (kr = 2e4)
+    for kr in (9.999e3, 1.0001e4, 1.9999e4, 2.0001e4, 1e6):
+        out.append({"id": "mie-far:m=1.2:x=5.0:kr=%r" % kr, "kind": "far",
+                    "m": [1.2, 0.0], "x": 5.0, "kr": kr})
     reqs.append(mie_ref.req_homog(1.2, 1.0))
     out.append({"id": "mie-j1-zeros", "kind": "j1zero"})
     mie_ref.ensure(reqs)
